@@ -1,0 +1,87 @@
+//! Public forwarding wrappers over the scheduler's crate-private cursor and wait components.
+//!
+//! Compiled only with `--cfg grevm_verif`. Every method calls the production method of the same
+//! name; there is no logic here.
+#![allow(missing_docs, missing_debug_implementations, unreachable_pub)]
+
+use super::{context::SchedulerContext, wait::WaitSlot};
+use std::time::Duration;
+
+pub struct Context(SchedulerContext);
+
+impl Context {
+    pub fn new(num_txs: usize) -> Self {
+        Self(SchedulerContext::new(num_txs))
+    }
+    pub fn rewind_validation_to(&self, index: usize) {
+        self.0.rewind_validation_to(index)
+    }
+    pub fn logical_timestamp(&self) -> usize {
+        self.0.logical_timestamp()
+    }
+    pub fn executed(&self, index: usize) {
+        self.0.executed(index)
+    }
+    pub fn unconfirmed(&self, index: usize, timestamp: usize) {
+        self.0.unconfirmed(index, timestamp)
+    }
+    pub fn finished(&self) -> bool {
+        self.0.finished()
+    }
+    pub fn finality_idx(&self) -> usize {
+        self.0.finality_idx()
+    }
+    pub fn publish_finality(&self, index: usize) {
+        self.0.publish_finality(index)
+    }
+    pub fn committed_idx(&self) -> usize {
+        self.0.committed_idx()
+    }
+    pub fn publish_commit(&self, index: usize) {
+        self.0.publish_commit(index)
+    }
+    pub fn validation_idx(&self) -> usize {
+        self.0.validation_idx()
+    }
+    pub fn lower_timestamp(&self, index: usize) -> usize {
+        self.0.lower_timestamp(index)
+    }
+    pub fn unconfirmed_timestamp(&self, index: usize) -> usize {
+        self.0.unconfirmed_timestamp(index)
+    }
+    pub fn execution_frontier(&self) -> usize {
+        self.0.execution_frontier()
+    }
+    pub fn should_schedule(&self, executing_idx: usize) -> bool {
+        self.0.should_schedule(executing_idx)
+    }
+    pub fn next_validation_idx(&self, executing_idx: usize) -> Option<usize> {
+        self.0.next_validation_idx(executing_idx)
+    }
+}
+
+pub struct Slot(WaitSlot);
+
+impl Slot {
+    pub fn new() -> Self {
+        Self(WaitSlot::new())
+    }
+    pub fn id(&self) -> usize {
+        &self.0 as *const WaitSlot as usize
+    }
+    pub fn register_current_thread(&self) {
+        self.0.register_current_thread()
+    }
+    pub fn notify(&self) {
+        self.0.notify()
+    }
+    pub fn wait_while(&self, timeout: Duration, blocked: impl FnMut() -> bool) {
+        self.0.wait_while(timeout, blocked)
+    }
+}
+
+impl Default for Slot {
+    fn default() -> Self {
+        Self::new()
+    }
+}
